@@ -288,7 +288,7 @@ def enc_ack(errno_neg, request, portid=None):
                      (_uint(request, 12, 4) if len(request) >= 16 else 0) if portid is None else portid, body)
 
 
-def enc_expire(sa, hard):
+def enc_expire(sa, hard, attrs=()):
     n = 'xfrm_user_expire'
     b = bytearray(size(n))
     so = off(n, 'state')
@@ -305,7 +305,24 @@ def enc_expire(sa, hard):
     _put(b, so + off(u, 'replay_window'), 1, sa['replay_window'])
     _put(b, so + off(u, 'flags'), 1, sa['flags'])
     _put(b, off(n, 'hard'), 1, 1 if hard else 0)
-    return enc_nlmsg(K['XFRM_MSG_EXPIRE'], 0, 0, 0, b)
+    return enc_nlmsg(K['XFRM_MSG_EXPIRE'], 0, 0, 0, bytes(b) + _event_attrs(attrs, expire=True))
+
+
+def _event_attrs(names, expire=False):
+    """Attributes xfrm_user.c appends to events besides XFRMA_TMPL: build_acquire() = copy_to_user_policy_type() + xfrm_mark_put() +
+    xfrm_if_id_put(); build_expire() = xfrm_mark_put() + xfrm_if_id_put() (present when sub-policies are compiled in, a mark / an
+    interface id is set on the policy or SA)."""
+    out = b''
+    if names is True:
+        names = ('policy_type',)
+    for n_ in names or ():
+        if n_ == 'policy_type' and not expire:
+            out += enc_attr(16, b'\0\0\0\0\0\0')                 # XFRMA_POLICY_TYPE: struct xfrm_userpolicy_type {type = MAIN}
+        elif n_ == 'mark':
+            out += enc_attr(21, struct.pack('<LL', 0x2a, 0xffffffff))     # XFRMA_MARK: struct xfrm_mark {v, m}
+        elif n_ == 'if_id':
+            out += enc_attr(31, struct.pack('<L', 7))                    # XFRMA_IF_ID
+    return out
 
 
 def enc_acquire(pol, flow, extra_attrs=False):
@@ -330,8 +347,7 @@ def enc_acquire(pol, flow, extra_attrs=False):
     _put(b, off(n, 'calgos'), 4, t['calgos'])
     _put(b, off(n, 'seq'), 4, flow.get('seq', 1))
     attrs = enc_attr(K['XFRMA_TMPL'], b''.join(bytes(enc_tmpl(x)) for x in pol['tmpls']))
-    if extra_attrs:
-        attrs += enc_attr(16, b'\0\0\0\0\0\0')  # XFRMA_POLICY_TYPE {type=MAIN}
+    attrs += _event_attrs(extra_attrs)
     return enc_nlmsg(K['XFRM_MSG_ACQUIRE'], 0, 0, 0, bytes(b) + attrs)
 
 
@@ -705,7 +721,7 @@ class FakeKernel:
             if ent['soft_sent']:
                 return False
             ent['soft_sent'] = True
-        self._emit(1 << (K['XFRMNLGRP_EXPIRE'] - 1), enc_expire(ent, hard),
+        self._emit(1 << (K['XFRMNLGRP_EXPIRE'] - 1), enc_expire(ent, hard, getattr(self, 'event_attrs', ())),
                    ('expire', ent['spi'].hex(), int(hard)))
         return True
 
@@ -782,7 +798,7 @@ class FakeKernel:
         if self.larval.get(fkey, -1) > now:
             return 'larval', None
         self.larval[fkey] = now + self.ACQ_EXPIRES
-        self._emit(1 << (K['XFRMNLGRP_ACQUIRE'] - 1), enc_acquire(pol, flow, extra_attrs),
+        self._emit(1 << (K['XFRMNLGRP_ACQUIRE'] - 1), enc_acquire(pol, flow, extra_attrs or getattr(self, 'event_attrs', ())),
                    ('acquire', pol['index']))
         return 'acquire', pol
 
